@@ -37,7 +37,7 @@ STDLIB_CONSTS = {
     "os.SEEK_SET": 0, "os.SEEK_CUR": 1, "os.SEEK_END": 2, "io.SEEK_SET": 0, "io.SEEK_CUR": 1, "io.SEEK_END": 2,
     "os.O_RDONLY": 0, "os.O_WRONLY": 1, "os.O_RDWR": 2, "os.O_CREAT": 64, "os.O_EXCL": 128, "os.O_TRUNC": 512, "os.O_APPEND": 1024,
     "stat.S_IFMT": 0o170000, "stat.S_IFDIR": 0o040000, "stat.S_IFREG": 0o100000, "stat.S_IFLNK": 0o120000,
-    "sys.maxsize": 2 ** 63 - 1,
+    "sys.maxsize": 2 ** 63 - 1, "os.name": "posix", "sys.platform": "linux", "os.sep": "/",
 }
 
 
@@ -982,7 +982,11 @@ class Engine:
             if isinstance(cur, (VFunc, VClass, VModule)):
                 continue
             if isinstance(cur, VNone) and not declared:
-                raise OutOfSubset(s, f"loop {k} rebinds {name!r} which is None before the loop; declare its type in the loop spec")
+                con0 = getattr(frame, "contract", None)
+                if con0 is not None and con0.options.get("default_param") == "opaque":
+                    declared = "opaque?"        # effect-discipline contracts: untracked value or still None
+                else:
+                    raise OutOfSubset(s, f"loop {k} rebinds {name!r} which is None before the loop; declare its type in the loop spec")
             if isinstance(cur, VRef) and not declared:
                 # rebinding of a variable holding a reference: keep reference, havoc content
                 mutated.setdefault(name, set()).add("*")
@@ -1725,6 +1729,11 @@ class Engine:
     def call_def(self, f: VFunc, args, kwargs, node, frame):
         con = C.lookup(f.module.relpath, f.qualname)
         cur = getattr(self.vf, "current", None)
+        if cur is not None and self.call_depth == 0:
+            ov = cur.options.get("callee_contracts", {}).get(f.qualname)
+            if ov is not None:
+                # the caller is verified against a ghost-level view of this callee
+                con = C.lookup(*ov)
         inline = False
         if cur is not None and (f.qualname in cur.inline or f.name in cur.inline):
             inline = True
